@@ -35,7 +35,12 @@ FINISH = dict(
          "seen by the recorder is judged by Spec.C02.bracketHolds. non-trivial = some write replaced a "
          "longer content. (ii) issuance runs of the real daemon against the mock CA (chain length 1..4, all "
          "key types, fresh and renewed over longer padded files): certificate file = served body byte for "
-         "byte, key file's public key = the CSR's, also at the instant of the post-operation hook.",
+         "byte, key file's public key = the CSR's, also at the instant of the post-operation hook. "
+         "(iii) contents around 4 KiB / 8 KiB / 64 KiB written large-small-large to every kind of file, and 2 MiB + 1 byte "
+         "(judged on hashes by the harness); three issuances by ONE process with chains of different lengths (4-1-3, "
+         "22 kB-1 kB-3 kB), judged at each successful post-operation hook; the served chain without final newline, with two, "
+         "with a leading empty line, with CR LF, with text before / between the blocks, with 76-column lines; the download "
+         "answered badNonce / 503 without nonce / rateLimited first, the order polls answering 'processing' first.",
 )
 
 KEY_TYPES = ["rsa2048", "rsa4096", "ecdsa-p256", "ecdsa-p384", "ecdsa-p521", "ed25519", "ed448"]
@@ -96,9 +101,61 @@ def next_content(rng, kind, prev, pool):
         chain = "".join(rng.sample(pool["certs"], rng.randint(1, 4)))
         return {"data_hex": chain.encode().hex()}, "pem-chain"
     n = rng.choice([0, 1, 3, 20, rng.randint(0, 700), rng.randint(0, 700)])
+    if rng.random() < 0.06:
+        n = rng.choice(BOUNDARY_SIZES)     # sizes around the buffer sizes of the I/O layers
     if rng.random() < 0.3:
         return {"data_hex": (bytes([rng.choice(b"ABZ\n\x00")]) * n).hex()}, "filler"
     return {"data_hex": blob(rng, n).hex()}, "blob"
+
+
+BOUNDARY_SIZES = [4095, 4096, 4097, 8191, 8192, 8193, 16384, 65535, 65536, 65537]
+HUGE = (2 << 20) + 1     # beyond the 2 MiB that tokio's File hands to one write(2)
+
+
+def boundary_histories():
+    """Deterministic part: every kind of file written with contents around 4 KiB / 8 KiB / 64 KiB, large over
+    small over large, and (judged by the harness on hashes: the same predicate as Spec.C02.holds, without
+    shipping megabytes through the driver) 2 MiB + 1 byte over nothing and 10 bytes over 2 MiB + 1."""
+    out = []
+    for kind in ("cert", "account", "key"):
+        extra = {"via": "raw"} if kind == "key" else {}
+        for a, b, c in ((8193, 10, 8192), (65537, 4097, 65536), (4096, 4095, 16384)):
+            fm = sl.base_fm()
+            mk = lambda n, ch: dict({"ftype": kind, "fm": fm, "data_hex": (ch * n).hex(), "what": "boundary"}, **extra)   # noqa: E731
+            out.append({"umask": 0o022, "steps": [dict(mk(a, b"a"), pre={"absent": True}), mk(b, b"b"), mk(c, b"c")]})
+    return out
+
+
+def huge_histories():
+    out = []
+    for kind in ("cert", "account", "key"):
+        extra = {"via": "raw"} if kind == "key" else {}
+        fm = sl.base_fm()
+        mk = lambda n, ch: dict({"ftype": kind, "fm": fm, "data_hex": (ch * n).hex(), "what": "huge"}, **extra)   # noqa: E731
+        out.append({"umask": 0o022, "steps": [dict(mk(HUGE, b"h"), pre={"absent": True}), mk(10, b"s"), mk(HUGE + 7, b"H")]})
+    return out
+
+
+def run_huge(ctx, scratch):
+    hists = huge_histories()
+    for hist, (root, op, out) in zip(hists, sl.run_histories(hists, scratch, workers=3)):
+        if not isinstance(out, dict) or "steps" not in out:
+            ctx.broke("probe", "write_history did not run on the 2 MiB history: %s" % json.dumps(out)[:200], {"kind": "huge"})
+            continue
+        for i, (s, o) in enumerate(zip(hist["steps"], out["steps"])):
+            ctx.case({"huge": s["ftype"], "step": i}, nontrivial=i == 1)
+            ctx.count("huge:%s:%s" % (s["ftype"], sl.result_class(o)))
+            ctx.traces += 1
+            if sl.result_class(o) != "ok":
+                continue
+            want = hashlib.sha256(bytes.fromhex(s["data_hex"])).hexdigest()
+            have = hashlib.sha256(bytes.fromhex(o.get("content_hex") or "")).hexdigest() if o.get("content_hex") is not None else None
+            if have != want:
+                ctx.violation("write reported successful but the file does not hold exactly the new content right after the call "
+                              "returned: step %d wrote %d bytes to %s, the file holds %s bytes" % (
+                                  i, len(s["data_hex"]) // 2, o.get("path"),
+                                  len(o["content_hex"]) // 2 if o.get("content_hex") is not None else "no"),
+                              {"kind": "huge", "ftype": s["ftype"], "step": i})
 
 
 ROOT = os.geteuid() == 0
@@ -404,13 +461,91 @@ def run_flow(spec, root, helper):
                 f.write(k["pem"] + "# residue-marker\n" * 600)
         os.chmod(key_path, 0o600)
         pre_key["pub"] = k["pub_der_hex"]
-    obs = flow.run_scenario(root, [cert], ca_opts={"chain_len": spec["chain_len"], "chain_sep": spec.get("chain_sep", ""),
-                                                    "chain_pad": spec.get("chain_pad", 0)}, timeout=40, helper=helper, pre=pre,
-                            extra_global=extra_global)
+    ca_opts = {"chain_len": spec["chain_len"], "chain_sep": spec.get("chain_sep", ""), "chain_pad": spec.get("chain_pad", 0)}
+    rules = None
+    if spec.get("chain_form"):
+        ca_opts["chain_form"] = spec["chain_form"]
+    if spec.get("attempts", 1) > 1:
+        # several issuances by ONE process: a certificate good for a day is due at once (renew_delay: 30 days);
+        # each order gets a chain of its own length (and padding), shorter or longer than the one before
+        ca_opts.update(chain_len=spec["chain_lens"], chain_pad=spec.get("chain_pads", 0), valid_secs=86400)
+    if spec.get("retry"):
+        # the download (or the poll before it) succeeds at the second try only
+        ca_opts.update(order_polls_before_valid=2, order_polls_before_ready=1)
+        ans = {"badNonce": {"status": 400, "ctype": "application/problem+json", "body": {"type": mockca.ERR + "badNonce", "detail": "injected"}},
+               "503": {"status": 503, "ctype": "application/problem+json", "body": {"type": mockca.ERR + "serverInternal"}, "nonce": "none"},
+               "ratelimited": {"status": 429, "ctype": "application/problem+json", "body": {"type": mockca.ERR + "rateLimited", "detail": "injected"}}}
+        rules = [{"kind": "cert", "nth": 0, "answer": ans[spec["retry"]], "label": "retry-" + spec["retry"]}]
+    obs = flow.run_scenario(root, [cert], ca_opts=ca_opts, rules=rules, timeout=40, helper=helper, pre=pre,
+                            extra_global=extra_global, n_postop=spec.get("attempts", 1))
     return obs, crt_path, key_path, pre_key
 
 
+def judge_attempts(ctx, spec, obs, crt_path, key_path, helper):
+    """Several successful attempts of one process: at the instant of the k-th successful post-operation hook
+    the certificate file is the chain served for the k-th order and the key file is the key of the k-th CSR
+    (the files as they are after the process was stopped are not judged: it may have been stopped in the
+    middle of one more attempt)."""
+    replay_obj = {"kind": "flow", "spec": spec}
+    okposts = [r for r in obs["hooks"] if flow.hook_args(r).get("type") == "post-operation" and flow.hook_args(r).get("is_success") == "true"]
+    evs = sorted([("cert", e["t"], e) for e in obs["ca"] if e.get("kind") == "req" and "served_cert" in e] +
+                 [("csr", e["t"], e) for e in obs["ca"] if e.get("kind") == "req" and "csr_b64" in e] +
+                 [("post", r["t"], r) for r in okposts], key=lambda x: x[1])
+    if len(okposts) < spec["attempts"]:
+        ctx.count("flow:no-successful-attempt")
+        ctx.broke("flow", "the run did not reach %d successful attempts (%d seen)" % (spec["attempts"], len(okposts)),
+                  dict(replay_obj, stderr=obs["stderr"][-1500:]))
+        return
+    last = {}
+    k = 0
+    prev_len = None
+    for what, _, e in evs:
+        if what != "post":
+            last[what] = e
+            continue
+        k += 1
+        if "cert" not in last or "csr" not in last:
+            ctx.broke("flow", "a successful attempt without a download / CSR before it", replay_obj)
+            return
+        body = last["cert"]["served_cert"].encode()
+        snap = e.get("files") or {}
+        sc, sk = snap.get(crt_path), snap.get(key_path)
+        shrink = prev_len is not None and len(body) < prev_len
+        prev_len = len(body)
+        ctx.case({"flow": spec, "attempt": k}, nontrivial=shrink or k == 1)
+        ctx.count("flow:attempt-%d:%s" % (k, "shorter-chain" if shrink else "first" if k == 1 else "longer-or-equal-chain"))
+        ctx.traces += 1
+        files = [{"path": crt_path, "content_hex": sc["text"].encode().hex()}] if sc and sc.get("text") is not None else []
+        if sc and sc.get("text") is not None:
+            v = vlib.model([{"op": "c02_holds", "obs": [{"path": crt_path, "data_hex": body.hex(), "ok": True}], "files": files}])[0]
+            good = bool(v.get("holds"))
+        else:     # too big for the recorder to keep the text: it kept the hash and the length
+            good = bool(sc) and sc["sha256"] == hashlib.sha256(body).hexdigest() and sc["len"] == len(body)
+        if not good:
+            ctx.violation("attempt %d of one process reported successful, but at the instant of its post-operation hook the "
+                          "certificate file was not the chain served for that attempt's order: served %d bytes (sha256 %s), file %s" % (
+                              k, len(body), hashlib.sha256(body).hexdigest()[:16],
+                              "%d bytes (sha256 %s)" % (sc["len"], sc["sha256"][:16]) if sc else "absent"), replay_obj)
+        csr = helper.call({"op": "parse_csr", "csr_b64": last["csr"]["csr_b64"]})
+        pk = helper.call({"op": "pub_of_key", "pem": (sk or {}).get("text") or ""}) if sk else {}
+        kv = vlib.model([{"op": "c02_key", "key_file_pub_hex": pk.get("pub_der_hex"), "csr_pub_hex": csr.get("pub_der_hex"),
+                          "key_text": (sk or {}).get("text") or ""}])[0]
+        if not kv.get("key_is_csr_key"):
+            ctx.violation("attempt %d of one process reported successful, but at the instant of its post-operation hook the "
+                          "private-key file was not the key of that attempt's CSR" % k, replay_obj)
+        elif not spec.get("kp_reuse") and not kv.get("key_file_exact"):
+            ctx.violation("after attempt %d the private-key file holds more than the new key (%s bytes)" % (k, (sk or {}).get("len")),
+                          replay_obj)
+
+
+# the forms the strict reader of Model/Pem takes as "the chain, up to blanks" (it wants every END line terminated:
+# "no-final-nl" is a chain for OpenSSL and not for it; the byte-level judge above is what decides those forms)
+PEM_FORMS_STRICT = (None, "double-nl", "leading-nl")
+
+
 def judge_flow(ctx, spec, obs, crt_path, key_path, pre_key, helper):
+    if spec.get("attempts", 1) > 1:
+        return judge_attempts(ctx, spec, obs, crt_path, key_path, helper)
     replay_obj = {"kind": "flow", "spec": spec}
     posts = [r for r in obs["hooks"] if flow.hook_args(r).get("type") == "post-operation"]
     okposts = [r for r in posts if flow.hook_args(r).get("is_success") == "true"]
@@ -438,7 +573,11 @@ def judge_flow(ctx, spec, obs, crt_path, key_path, pre_key, helper):
                                                 "%d bytes (sha256 %s)" % (cf["len"], cf["sha256"][:16]) if cf["present"] else "absent"),
                       replay_obj)
     # the same file as a PEM chain (Model/Pem): Spec.C15.certChainIs with the DERs OpenSSL reads from the body
-    if cf["present"]:
+    if spec.get("chain_form"):
+        ctx.count("flow:chain_form=%s" % spec["chain_form"])
+    if spec.get("retry"):
+        ctx.count("flow:download-retried=%s fired=%s" % (spec["retry"], any(e.get("rule") for e in obs["ca"] if e.get("kind") == "req")))
+    if cf["present"] and spec.get("chain_form") in PEM_FORMS_STRICT:
         ext.pem.extend_c02_flow(ctx, helper, spec, crt_path, cf["data"], body, not v.get("holds"), replay_obj)
     snap = (okposts[-1].get("files") or {})
     sc, sk = snap.get(crt_path), snap.get(key_path)
@@ -474,6 +613,29 @@ def judge_flow(ctx, spec, obs, crt_path, key_path, pre_key, helper):
                 "csr_key_matches": pk.get("pub_der_hex") == csr.get("pub_der_hex")}, limit=8)
 
 
+FORMS = ["no-final-nl", "double-nl", "leading-nl", "crlf", "text-before", "text-between", "wrap76"]
+
+
+def more_flow_specs(quick):
+    out = []
+    base = {"chain_len": 2, "renew_over_longer": False, "ids": ["example.org"], "kp_reuse": False, "chain_sep": ""}
+    # several issuances by one process, each chain shorter / longer than the one before (22 kB -> 1 kB -> 3 kB)
+    seqs = [("ecdsa-p256", [4, 1, 3], [120, 0, 0], False), ("rsa2048", [1, 3, 1], [0, 0, 0], False),
+            ("ed25519", [3, 2, 1], [0, 120, 0], True), ("rsa4096", [2, 4, 1], [0, 0, 0], False)]
+    for kt, lens, pads, kp in (seqs[:3] if quick else seqs):
+        out.append(dict(base, key_type=kt, attempts=3, chain_lens=lens, chain_pads=pads, kp_reuse=kp,
+                        renew_over_longer=(kt == "rsa2048")))
+    # other byte forms of the served chain: the file is what was served, byte for byte
+    for i, form in enumerate(FORMS):
+        out.append(dict(base, key_type=KEY_TYPES[(i + 2) % len(KEY_TYPES)] if not quick or i % 3 else "ecdsa-p256",
+                        chain_len=1 + i % 3, chain_form=form, renew_over_longer=bool(i % 2)))
+    # the download is answered with an error the client retries, the order polls say "processing" first
+    for i, r in enumerate(("badNonce", "503", "ratelimited")):
+        out.append(dict(base, key_type=["ecdsa-p384", "ed25519", "rsa2048"][i], chain_len=2 + i % 2, retry=r,
+                        renew_over_longer=bool(i % 2), chain_pad=120 if i == 1 else 0))
+    return out
+
+
 def flows(ctx, n, scratch, helper_factory):
     specs = [flow_spec(ctx.rng, i) for i in range(n)]
     # key-pair re-use asked for, but the stored key cannot be used (not a key / cut to nothing): the
@@ -484,6 +646,7 @@ def flows(ctx, n, scratch, helper_factory):
     for j, old in enumerate(("garbage", "empty", "garbage")):
         specs.append({"key_type": ["ecdsa-p256", "rsa2048", "ed25519"][j], "chain_len": 2, "renew_over_longer": True,
                       "ids": ["example.org"], "kp_reuse": True, "chain_sep": "", "old_key": old})
+    specs += more_flow_specs(ctx.quick())
     specs += [c["spec"] for c in vlib.corpus("C02") if "spec" in c]
 
     def one(a):
@@ -520,7 +683,8 @@ def run(ctx):
     w = sl.world()
     try:
         pool = make_pool(helper, ctx.quick())
-        hists = corpus_histories()
+        hists = corpus_histories() + boundary_histories()
+        run_huge(ctx, os.path.join(scratch, "huge"))
         hists += [gen_history(ctx.rng, pool, w) for _ in range(300 if ctx.quick() else 10000)]
         run_histories(ctx, hists, w, helper, os.path.join(scratch, "hist"))
         flows(ctx, 10 if ctx.quick() else 300, os.path.join(scratch, "flows"), mockca.Helper)
@@ -550,7 +714,9 @@ def replay(ctx):
     os.makedirs(scratch)
     n0 = len(ctx.violations), len(ctx.broken)
     try:
-        if obj.get("kind") == "flow":
+        if obj.get("kind") == "huge":
+            run_huge(ctx, os.path.join(scratch, "huge"))
+        elif obj.get("kind") == "flow":
             obs, crt_path, key_path, pre_key = run_flow(obj["spec"], os.path.join(scratch, "f"), helper)
             judge_flow(ctx, obj["spec"], obs, crt_path, key_path, pre_key, helper)
         else:
